@@ -13,11 +13,11 @@ impl<T> VxIter<T> {
 
 /// R6: a synchronous user callback of the sequential API (`fn_fold(seed, f)`, `fn_for_each(f)`): one visit
 #[verifier::external_body]
-pub fn vx_user_visit<Fun, A, B, R>(f: &mut Fun, a: A, b: B, Tracked(w): Tracked<&mut World>) -> (r: R)
+pub fn vx_user_visit<Fun, A, B, R>(f: &Fun, a: A, b: B, Tracked(w): Tracked<&mut World>) -> (r: R)
     ensures *final(w) == (World { trace: old(w).trace.push(Ev::UserStart), ..*old(w) }),
 { unimplemented!() }
 
 #[verifier::external_body]
-pub fn vx_user_visit1<Fun, A, R>(f: &mut Fun, a: A, Tracked(w): Tracked<&mut World>) -> (r: R)
+pub fn vx_user_visit1<Fun, A, R>(f: &Fun, a: A, Tracked(w): Tracked<&mut World>) -> (r: R)
     ensures *final(w) == (World { trace: old(w).trace.push(Ev::UserStart), ..*old(w) }),
 { unimplemented!() }
